@@ -13,6 +13,43 @@ import (
 //	owharness gen KSPEC -seed N -tier quick -dir D variant=spec|published n=300
 func init() {
 	register(&Family{Name: "KSPEC", Gen: genKSpec, Exec: execKSpec, Oracle: oracleKSpec})
+	register(&Family{Name: "KORACLE", Gen: genKOracle, Exec: execKSpec, Oracle: oracleKOracle})
+}
+
+// Family KORACLE: oracle-only runs of the real code on a generator variant `<Model>#<variant>` (no model
+// comparison: the check lists it with compare=False). Used for regimes in which a kernel is numerically
+// ill-conditioned, so that a 1e-9 correspondence is not meaningful but the property's own predicate still is.
+//
+//	owharness gen KORACLE -seed N -tier quick -dir D models=Sacramento variant=wet prop=C10 n=150
+func genKOracle(c *Ctx) {
+	n := parseI(c.Arg("n", "150"))
+	if c.Tier == "thorough" {
+		n *= 20
+	}
+	variant := c.Arg("variant", "")
+	c.Stats.Rule = "oracle-only: generator variant '" + variant + "' of the listed models (parameters and series concentrated on one regime, initial states produced by the model itself); one real Run on one cell per case; non-trivial = T≥2 and some rain"
+	for _, m := range modelsArg(c) {
+		g := modelGens[m+"#"+variant]
+		if g == nil {
+			must(fmt.Errorf("no generator variant %s#%s", m, variant))
+		}
+		for i := 0; i < n; i++ {
+			k := drawCall(c.R, g, c.Tier)
+			c.Do(k.Body(), k.T() >= 2 && maxAbs(k.In[0]) > 0)
+			c.Stats.Count("model:" + k.Model)
+			c.Stats.Count(fmt.Sprintf("T:%s", bucket(k.T())))
+		}
+	}
+}
+
+func oracleKOracle(c *Ctx, id int, body, impl string) {
+	k := kspecReal(parseKCall(body))
+	f := kOracles[c.Arg("prop", "")][k.Model]
+	if f == nil {
+		return
+	}
+	c.Stats.OracleEvals++
+	f(c, id, k, parseKResult(impl), body)
 }
 
 func genKSpec(c *Ctx) {
